@@ -573,7 +573,26 @@ theorem getWith_none_iff (p : St → Bool) (hp : ∀ s, p s = true → s.usable 
 
 /-! ## C. the timed model: every slot is the fold of its own history -/
 
-def SlotOK (cfg : Cfg) (sl : Slot) : Prop := sl.core = runRes cfg.sth cfg.fth sl.hist
+/-- the recorded `on_health_change` invocations lead from `a` to `b`, each one a real change -/
+def linked : St → List (St × St) → St → Bool
+  | a, [], b => a == b
+  | a, (x, y) :: tl, b => a == x && x != y && linked y tl b
+
+theorem linked_snoc (a x y : St) (l : List (St × St)) (h : linked a l x = true) (hxy : x ≠ y) :
+    linked a (l ++ [(x, y)]) y = true := by
+  induction l generalizing a with
+  | nil =>
+    simp only [linked, beq_iff_eq] at h
+    subst h
+    simp [linked, hxy]
+  | cons p tl ih =>
+    obtain ⟨u, v⟩ := p
+    simp only [linked, Bool.and_eq_true, List.cons_append] at h ⊢
+    exact ⟨h.1, ih v h.2⟩
+
+structure SlotOK (cfg : Cfg) (sl : Slot) : Prop where
+  fold : sl.core = runRes cfg.sth cfg.fth sl.hist
+  chain : linked .unknown sl.changes sl.core.status = true
 
 structure Inv (cfg : Cfg) (s : State) : Prop where
   len : s.slots.length = cfg.n
@@ -604,8 +623,12 @@ theorem mem_updAt {α : Type} {l : List α} {i : Nat} {f : α → α} {x : α} (
         · exact Or.inr ⟨b, by simp [hb], hx⟩
 
 theorem stepSlot_ok (cfg : Cfg) (sl : Slot) (o : Outcome) (h : SlotOK cfg sl) : SlotOK cfg (stepSlot cfg sl o) := by
-  unfold SlotOK stepSlot at *
-  simp only [runRes_snoc, h]
+  refine ⟨?_, ?_⟩
+  · simp only [stepSlot, runRes_snoc, h.fold]
+  · simp only [stepSlot]
+    split
+    · rename_i he; rw [← he]; exact h.chain
+    · rename_i hne; exact linked_snoc _ _ _ _ h.chain hne
 
 /-- updating one slot with a function that keeps `SlotOK` keeps the invariant -/
 theorem inv_updAt (cfg : Cfg) (s : State) (i : Nat) (f : Slot → Slot)
@@ -623,20 +646,24 @@ theorem inv_of_slots_eq (cfg : Cfg) {s s' : State} (he : s'.slots = s.slots) (h 
 theorem emit_inv (cfg : Cfg) (s : State) (evs : List HEv) (h : Inv cfg s) : Inv cfg (emit s evs) :=
   ⟨h.len, h.fold⟩
 
-theorem finish_inv (cfg : Cfg) (s : State) (r : Nat) (it : Item) (o : Outcome) (h : Inv cfg s) :
-    Inv cfg (finish cfg s r it o) := by
+theorem finish_inv (cfg : Cfg) (s : State) (p : Pending) (o : Outcome) (h : Inv cfg s) :
+    Inv cfg (finish cfg s p o) := by
   unfold finish
-  exact emit_inv cfg _ _ (inv_updAt cfg s r _ (fun sl hs => stepSlot_ok cfg sl o hs) h)
+  exact emit_inv cfg _ _ (inv_updAt cfg s p.r _ (fun sl hs => stepSlot_ok cfg sl o hs) h)
+
+theorem popScript_ok (cfg : Cfg) (sl : Slot) (h : SlotOK cfg sl) : SlotOK cfg (popScript sl) :=
+  ⟨h.fold, h.chain⟩
 
 theorem startOne_inv (cfg : Cfg) (s : State) (r : Nat) (h : Inv cfg s) : Inv cfg (startOne cfg s r) := by
   unfold startOne
   split
   · exact h
-  · have h1 : Inv cfg (emit { s with slots := updAt s.slots r popScript } [.checkStart r (nextItem cfg ‹Slot›)]) :=
-      emit_inv cfg _ _ (inv_updAt cfg s r _ (fun sl hs => by unfold SlotOK popScript at *; exact hs) h)
+  · have h0 : Inv cfg { s with slots := updAt s.slots r popScript, nchk := s.nchk + 1 } :=
+      inv_of_slots_eq cfg (s := { s with slots := updAt s.slots r popScript }) rfl (inv_updAt cfg s r _ (popScript_ok cfg) h)
+    have h1 := emit_inv cfg _ [HEv.checkStart r (nextItem cfg ‹Slot›) s.nchk] h0
     simp only
     split
-    · exact finish_inv cfg _ r _ _ h1
+    · exact finish_inv cfg _ _ _ h1
     · exact ⟨h1.len, h1.fold⟩
 
 theorem foldl_inv {β : Type} (cfg : Cfg) (f : State → β → State) (hf : ∀ s b, Inv cfg s → Inv cfg (f s b))
@@ -653,12 +680,24 @@ theorem finishOne_inv (cfg : Cfg) (now : Nat) (s : State) (p : Pending) (h : Inv
     Inv cfg (finishOne cfg now s p) := by
   unfold finishOne
   split
-  · exact finish_inv cfg s _ _ _ h
+  · exact finish_inv cfg s _ _ h
   · exact ⟨h.len, h.fold⟩
 
-theorem finishDue_inv (cfg : Cfg) (s : State) (h : Inv cfg s) : Inv cfg (finishDue cfg s) := by
+theorem finishDue_inv (cfg : Cfg) (order : List Nat) (s : State) (h : Inv cfg s) : Inv cfg (finishDue cfg order s) := by
   unfold finishDue
   exact foldl_inv cfg _ (fun s p hs => finishOne_inv cfg _ s p hs) _ _ (⟨h.len, h.fold⟩)
+
+/-- whatever order is reported, the checks that are processed are exactly the pending ones, each once -/
+theorem arrange_perm (order : List Nat) (ps : List Pending) : (arrange order ps).Perm ps := by
+  induction order generalizing ps with
+  | nil => exact List.Perm.refl _
+  | cons k tl ih =>
+    unfold arrange
+    split
+    · rename_i p hp
+      have hm : p ∈ ps := List.mem_of_find?_eq_some hp
+      exact ((ih (ps.erase p)).cons p).trans (List.perm_cons_erase hm).symm
+    · exact ih ps
 
 theorem quiesce_inv (cfg : Cfg) (fuel : Nat) (s : State) (h : Inv cfg s) : Inv cfg (quiesce cfg fuel s) := by
   induction fuel generalizing s with
@@ -666,6 +705,7 @@ theorem quiesce_inv (cfg : Cfg) (fuel : Nat) (s : State) (h : Inv cfg s) : Inv c
   | succ f ih =>
     unfold quiesce
     split
+    · exact h
     · exact h
     · exact ih _ (⟨h.len, h.fold⟩)
     · split
@@ -676,37 +716,116 @@ theorem quiesce_inv (cfg : Cfg) (fuel : Nat) (s : State) (h : Inv cfg s) : Inv c
     · split
       · exact ih _ (startRound_inv cfg _ (⟨h.len, h.fold⟩))
       · exact h
-    · simp only
-      split
-      · exact ih _ (⟨(finishDue_inv cfg s h).len, (finishDue_inv cfg s h).fold⟩)
-      · exact finishDue_inv cfg s h
+    · split
+      · exact h
+      · exact ih _ (⟨h.len, h.fold⟩)
 
 theorem doOp_inv (cfg : Cfg) (s : State) (op : Op) (h : Inv cfg s) : Inv cfg (doOp cfg s op) := by
   cases op with
-  | adv ms => exact ⟨h.len, h.fold⟩
+  | adv ms o => exact ⟨h.len, h.fold⟩
   | script r items =>
     simp only [doOp]
     split
-    · exact inv_updAt cfg s r _ (fun sl hs => by unfold SlotOK at *; exact hs) h
+    · exact inv_updAt cfg s r _ (fun sl hs => ⟨hs.fold, hs.chain⟩) h
     · exact emit_inv cfg _ _ h
   | status r => exact emit_inv cfg _ _ h
   | details r => exact emit_inv cfg _ _ h
   | all => exact emit_inv cfg _ _ h
   | getHealthy => exact ⟨h.len, h.fold⟩
   | getUsable => exact ⟨h.len, h.fold⟩
+  | start => exact ⟨h.len, h.fold⟩
+  | stop => exact ⟨h.len, h.fold⟩
+  | config => exact emit_inv cfg _ _ h
+  | u8 v => exact emit_inv cfg _ _ h
+  | fresh n => exact emit_inv cfg _ _ h
   | bad => exact emit_inv cfg _ _ h
   | idle => exact h
 
 theorem stepS_inv (cfg : Cfg) (s : State) (op : Op) (h : Inv cfg s) : Inv cfg (stepS cfg s op) :=
-  quiesce_inv cfg _ _ (doOp_inv cfg s op h)
+  quiesce_inv cfg _ _ (finishDue_inv cfg _ _ (doOp_inv cfg s op h))
 
 theorem init_inv (cfg : Cfg) : Inv cfg (init cfg) := by
   refine ⟨by simp [init], ?_⟩
   intro sl hsl
   simp [init] at hsl
-  rw [hsl.2]; rfl
+  rw [hsl.2]; exact ⟨rfl, rfl⟩
 
 theorem inv_reachable (cfg : Cfg) (ops : List Op) : Inv cfg (run cfg ops) :=
   foldl_inv cfg _ (fun s op hs => stepS_inv cfg s op hs) ops _ (init_inv cfg)
+
+/-! ## D. `stop()`: nothing changes any more once the checks in flight are done -/
+
+theorem arrange_nil (order : List Nat) : arrange order [] = [] := by
+  induction order with
+  | nil => rfl
+  | cons k tl ih => simp [arrange, ih]
+
+theorem quiesce_stopped (cfg : Cfg) (f : Nat) (s : State) (h : s.phase = .stopped) : quiesce cfg f s = s := by
+  cases f with
+  | zero => rfl
+  | succ f => unfold quiesce; simp [h]
+
+theorem map_updAt_of {α β : Type} (g : α → β) (f : α → α) (hf : ∀ a, g (f a) = g a) (l : List α) (i : Nat) :
+    (updAt l i f).map g = l.map g := by
+  induction l generalizing i with
+  | nil => rfl
+  | cons a tl ih => cases i <;> simp [updAt, hf, ih]
+
+theorem stepS_stopped (cfg : Cfg) (s : State) (op : Op) (hp : s.phase = .stopped) (hq : s.pending = [])
+    (hop : op ≠ .start) :
+    (stepS cfg s op).slots.map (·.core) = s.slots.map (·.core) ∧
+    (stepS cfg s op).slots.map (·.hist) = s.slots.map (·.hist) ∧
+    (stepS cfg s op).phase = .stopped ∧ (stepS cfg s op).pending = [] := by
+  have key : ∀ s' : State, s'.phase = .stopped → s'.pending = [] →
+      s'.slots.map (·.core) = s.slots.map (·.core) → s'.slots.map (·.hist) = s.slots.map (·.hist) →
+      (quiesce cfg fuel (finishDue cfg (orderOf op) s')).slots.map (·.core) = s.slots.map (·.core) ∧
+      (quiesce cfg fuel (finishDue cfg (orderOf op) s')).slots.map (·.hist) = s.slots.map (·.hist) ∧
+      (quiesce cfg fuel (finishDue cfg (orderOf op) s')).phase = .stopped ∧
+      (quiesce cfg fuel (finishDue cfg (orderOf op) s')).pending = [] := by
+    intro s' h1 h2 h3 h4
+    have e : finishDue cfg (orderOf op) s' = s' := by
+      unfold finishDue
+      rw [h2, arrange_nil]
+      simp only [List.foldl_nil]
+      cases s'; simp_all
+    rw [e, quiesce_stopped cfg _ _ h1]
+    exact ⟨h3, h4, h1, h2⟩
+  unfold stepS
+  cases op with
+  | start => exact absurd rfl hop
+  | script r items =>
+    apply key
+    · simp only [doOp]; split <;> simp [emit, hp]
+    · simp only [doOp]; split <;> simp [emit, hq]
+    · simp only [doOp]; split
+      · exact map_updAt_of (fun sl : Slot => sl.core) (fun sl => { sl with script := sl.script ++ items }) (fun _ => rfl) s.slots r
+      · rfl
+    · simp only [doOp]; split
+      · exact map_updAt_of (fun sl : Slot => sl.hist) (fun sl => { sl with script := sl.script ++ items }) (fun _ => rfl) s.slots r
+      · rfl
+  | stop => exact key _ rfl (by simp [doOp, emit, orphan, hq]) rfl rfl
+  | adv ms o => exact key _ hp hq rfl rfl
+  | status r => exact key _ hp hq rfl rfl
+  | details r => exact key _ hp hq rfl rfl
+  | all => exact key _ hp hq rfl rfl
+  | getHealthy => exact key _ hp hq rfl rfl
+  | getUsable => exact key _ hp hq rfl rfl
+  | config => exact key _ hp hq rfl rfl
+  | u8 v => exact key _ hp hq rfl rfl
+  | fresh n => exact key _ hp hq rfl rfl
+  | bad => exact key _ hp hq rfl rfl
+  | idle => exact key _ hp hq rfl rfl
+
+theorem stopped_frozen (cfg : Cfg) (ops : List Op) (s : State) (hp : s.phase = .stopped) (hq : s.pending = [])
+    (hops : ∀ op ∈ ops, op ≠ .start) :
+    (ops.foldl (stepS cfg) s).slots.map (·.core) = s.slots.map (·.core) ∧
+    (ops.foldl (stepS cfg) s).slots.map (·.hist) = s.slots.map (·.hist) ∧
+    (ops.foldl (stepS cfg) s).phase = .stopped := by
+  induction ops generalizing s with
+  | nil => exact ⟨rfl, rfl, hp⟩
+  | cons op tl ih =>
+    obtain ⟨h1, h2, h3, h4⟩ := stepS_stopped cfg s op hp hq (hops op (by simp))
+    obtain ⟨i1, i2, i3⟩ := ih (stepS cfg s op) h3 h4 (fun o ho => hops o (by simp [ho]))
+    exact ⟨i1.trans h1, i2.trans h2, i3⟩
 
 end TR.Health
